@@ -3,6 +3,7 @@ package rules
 import (
 	"go/ast"
 	"go/token"
+	"go/types"
 
 	"kadcheck/internal/eng"
 )
@@ -127,6 +128,8 @@ func lockStateOf(c *Ctx, f *eng.Func, spec *lockSpec, memo map[*eng.Func]*eng.Lo
 	if f.Lit == nil {
 		if m, ok := spec.CallerHolds[f.Name]; ok {
 			entry = eng.LockState{spec.Lock: m}
+		} else if m, ok := inferredEntry(c, f, spec, memo); ok {
+			entry = eng.LockState{spec.Lock: m}
 		}
 	} else if f.Parent != nil {
 		pli := lockStateOf(c, f.Parent, spec, memo)
@@ -137,6 +140,70 @@ func lockStateOf(c *Ctx, f *eng.Func, spec *lockSpec, memo map[*eng.Func]*eng.Lo
 	li := f.LocksWithEntry(entry)
 	memo[f] = li
 	return li
+}
+
+// inferredEntry: an unexported function that is only ever entered through direct calls
+// (never used as a value, never spawned or deferred, not reachable through an interface of
+// its package) starts with the lock in the weakest mode held at all of its call sites.  This
+// makes an extracted helper inherit its callers' critical section.
+func inferredEntry(c *Ctx, f *eng.Func, spec *lockSpec, memo map[*eng.Func]*eng.LockInfo) (eng.LockMode, bool) {
+	if f.Obj == nil || f.Obj.Exported() || f.Decl == nil {
+		return 0, false
+	}
+	if f.Decl.Recv != nil {
+		sc := f.Pkg.Types.Scope()
+		for _, n := range sc.Names() {
+			tn, ok := sc.Lookup(n).(*types.TypeName)
+			if !ok {
+				continue
+			}
+			if it, ok := tn.Type().Underlying().(*types.Interface); ok {
+				for i := 0; i < it.NumMethods(); i++ {
+					if it.Method(i).Name() == f.Obj.Name() {
+						return 0, false
+					}
+				}
+			}
+		}
+	}
+	uses := c.P.UsesOf(f.Obj)
+	if len(uses) == 0 {
+		return 0, false
+	}
+	memo[f] = f.Locks() // cycle guard: a recursive path contributes the empty state
+	defer delete(memo, f)
+	mode := eng.LockW
+	for _, u := range uses {
+		var fun ast.Expr = u.Node.(*ast.Ident)
+		if se, ok := c.P.Parent(u.Node).(*ast.SelectorExpr); ok && se.Sel == u.Node {
+			fun = se
+		}
+		par := c.P.Parent(fun)
+		for {
+			pe, ok := par.(*ast.ParenExpr)
+			if !ok {
+				break
+			}
+			fun, par = pe, c.P.Parent(pe)
+		}
+		call, ok := par.(*ast.CallExpr)
+		if !ok || eng.Unparen(call.Fun) != eng.Unparen(fun) {
+			return 0, false // used as a value
+		}
+		switch c.P.Parent(call).(type) {
+		case *ast.GoStmt, *ast.DeferStmt:
+			return 0, false
+		}
+		held := lockStateOf(c, u.F, spec, memo).HeldBefore(call)
+		m, ok := held[spec.Lock]
+		if !ok {
+			return 0, false
+		}
+		if m < mode {
+			mode = m
+		}
+	}
+	return mode, true
 }
 
 // litRunsSync: the literal is invoked in place (possibly deferred) or passed to a callee
@@ -240,3 +307,124 @@ func checkNoBadUnlock(c *Ctx, f *eng.Func, entry eng.LockState) {
 }
 
 var _ = token.NoPos
+
+// ---------------------------------------------------------------------------
+// copy propagation through single-assignment locals
+
+// assignsDeep collects the right-hand sides assigned to obj anywhere in root (nested
+// literals included); inc/dec statements and address-taking count as an unknown assignment (nil).
+func assignsDeep(root *eng.Func, obj eng.Object) []ast.Expr {
+	var out []ast.Expr
+	var rec func(g *eng.Func)
+	rec = func(g *eng.Func) {
+		out = append(out, g.AssignedFrom(obj)...)
+		info := g.Info()
+		g.Walk(func(n ast.Node) bool {
+			switch s := n.(type) {
+			case *ast.IncDecStmt:
+				if eng.IsObj(info, s.X, obj) {
+					out = append(out, nil)
+				}
+			case *ast.UnaryExpr:
+				if s.Op == token.AND && eng.IsObj(info, s.X, obj) {
+					out = append(out, nil)
+				}
+			}
+			return true
+		})
+		for _, l := range g.Lits {
+			rec(l)
+		}
+	}
+	rec(root)
+	return out
+}
+
+// localDef returns the defining expression of e when e names a local variable (not a
+// parameter, not a named result) that is assigned exactly once in its root function.
+func localDef(f *eng.Func, e ast.Expr) ast.Expr {
+	id, ok := eng.Unparen(e).(*ast.Ident)
+	if !ok {
+		return nil
+	}
+	v, ok := eng.ObjOf(f.Info(), id).(*eng.Var)
+	if !ok || v.IsField() || v.Parent() == nil || v.Parent() == v.Pkg().Scope() {
+		return nil
+	}
+	root := f.Root()
+	if v.Pos() < root.Body.Pos() || v.Pos() > root.Body.End() {
+		return nil // parameter or result
+	}
+	as := assignsDeep(root, v)
+	if len(as) != 1 || as[0] == nil {
+		return nil
+	}
+	if _, isCall := eng.Unparen(as[0]).(*ast.CallExpr); isCall {
+		// a tuple-assigned call result is not an alias of anything
+		if tv, ok := f.Info().Types[as[0]]; ok {
+			if _, isTuple := tv.Type.(*types.Tuple); isTuple {
+				return nil
+			}
+		}
+	}
+	return as[0]
+}
+
+// aliasOf: e satisfies base, or is a single-assignment local whose definition does
+// (transitively, depth <= 4).
+func aliasOf(f *eng.Func, e ast.Expr, base func(ast.Expr) bool) bool {
+	for depth := 0; depth < 5 && e != nil; depth++ {
+		if base(e) {
+			return true
+		}
+		e = localDef(f, e)
+	}
+	return false
+}
+
+// resolveLocal follows single-assignment locals to the expression they were defined from.
+func resolveLocal(f *eng.Func, e ast.Expr) ast.Expr {
+	for depth := 0; depth < 5; depth++ {
+		d := localDef(f, e)
+		if d == nil {
+			return e
+		}
+		e = d
+	}
+	return e
+}
+
+// passOrFact: every path from `from` to a location accepted by to executes one of via or
+// takes an edge carrying a fact accepted by pred.  It is the path form of "X happens unless
+// C holds" and is indifferent to whether the code says `if C { return }; X` or `if !C { X }`.
+func passOrFact(cf *eng.CFG, from eng.Loc, to func(eng.Loc) bool, via []eng.Loc, pred func(eng.Fact) bool) (bool, []eng.Loc) {
+	type ek struct {
+		b *eng.Block
+		i int
+	}
+	cut := map[ek]bool{}
+	for _, e := range factEdges(cf, pred) {
+		cut[ek{e.B, e.Succ}] = true
+	}
+	r, w := cf.Reach(from, to, eng.ReachOpt{
+		CutLoc:  eng.LocSet(via...),
+		CutEdge: func(b *eng.Block, i int) bool { return cut[ek{b, i}] },
+	})
+	return !r, w
+}
+
+// eqOperand: the fact states `subject == v`, as a case of `switch subject` or as a
+// comparison in either operand order; returns v.
+func eqOperand(ft eng.Fact, isSubject func(ast.Expr) bool) (ast.Expr, bool) {
+	x, y, equal, ok := ft.EqFact()
+	if !ok || !equal {
+		return nil, false
+	}
+	if isSubject(x) {
+		return y, true
+	}
+	if isSubject(y) {
+		return x, true
+	}
+	return nil, false
+}
